@@ -18,6 +18,9 @@ import math, copy
 LIB = {
     'lin':   {'eqs': ["x' = -a*x + u"], 'state': ['x'], 'const': ['a'], 'in': 'u', 'out': 'x',
               'defaults': {'x': 0.5, 'a': 2.0}},
+    # the lin operator with the input subtracted: same variables, same argument list, another formula
+    'linm':  {'eqs': ["x' = -a*x - u"], 'state': ['x'], 'const': ['a'], 'in': 'u', 'out': 'x',
+              'defaults': {'x': 0.5, 'a': 2.0}},
     'sat':   {'eqs': ["x' = (-x + tanh(g*u + b))/tau"], 'state': ['x'], 'const': ['g', 'b', 'tau'], 'in': 'u',
               'out': 'x', 'defaults': {'x': 0.1, 'g': 1.5, 'b': 0.2, 'tau': 0.5}},
     'integ': {'eqs': ["x' = u"], 'state': ['x'], 'const': [], 'in': 'u', 'out': 'x', 'defaults': {'x': 0.0}},
@@ -109,6 +112,8 @@ def ref_rhs(lib, p, s, u, past=None):
         return {'z': (1j * p['om'] - p['dl']) * s['z'] - p['a'] * past('z', p['tau']) + u}
     if lib == 'lin':
         return {'x': -p['a'] * s['x'] + u}
+    if lib == 'linm':
+        return {'x': -p['a'] * s['x'] - u}
     if lib == 'rd':
         return {'q': -p['kq'] * s['q'] + p['gq'] * u}        # u = value of the variable it reads (same node, first operator)
     if lib == 'em':
@@ -136,6 +141,8 @@ def recover_input(lib, p, s, r):
     """invert ref_rhs for the summed input u given the derivative dict r (exact for lin/integ/osc/leak)"""
     if lib == 'lin':
         return r['x'] + p['a'] * s['x']
+    if lib == 'linm':
+        return -(r['x'] + p['a'] * s['x'])
     if lib == 'rd':
         return (r['q'] + p['kq'] * s['q']) / p['gq']
     if lib == 'em':
@@ -337,8 +344,10 @@ def gen_net(rng, n_nodes=None, libs=('lin', 'sat', 'osc', 'leak', 'integ', 'linl
                 spec['ops'][k + uniq]['defaults'][s_] = 0.0
     if any(LIB[k].get('complex') for k in kinds):
         spec['build'] = 'python'          # complex literals in node-level variations are a Python-frontend matter here
-    pool = list(range(-96, 97))
+    pk = 1 if n <= 40 else (4 if n <= 160 else 8)       # more distinct initial values for very large models (finer grid)
+    pool = list(range(-96 * pk, 96 * pk + 1))
     rng.shuffle(pool)
+    pq = 64 * pk
     names = node_names(rng, n)
     node_kind = {}
     readout_of = {}
@@ -355,9 +364,9 @@ def gen_net(rng, n_nodes=None, libs=('lin', 'sat', 'osc', 'leak', 'integ', 'linl
             else:
                 var[c] = _grid(rng, -2.0, 2.0, 16) or 0.5
         for s in LIB[k]['state']:
-            var[s] = pool.pop() / 64
+            var[s] = pool.pop() / pq
             if LIB[k].get('complex'):
-                var[s] = [var[s], pool.pop() / 64]
+                var[s] = [var[s], pool.pop() / pq]
         if per_node_ops:
             # every node has an operator of its own carrying its values as defaults; node templates without overrides
             okey = f'{k}{i}{uniq}'
@@ -373,7 +382,7 @@ def gen_net(rng, n_nodes=None, libs=('lin', 'sat', 'osc', 'leak', 'integ', 'linl
             two = len(readouts) > 3 and rng.random() < readouts[3]     # readout with a second (edge) input
             rlib = 'rd2' if two else 'rd'
             rk = f'{rlib}{i}{uniq}' if per_node_ops else f'{rlib}_{k}{uniq}'
-            rvar = {'kq': _grid(rng, 0.25, 3.0, 16), 'gq': _grid(rng, -2.0, 2.0, 16) or 0.5, 'q': pool.pop() / 64}
+            rvar = {'kq': _grid(rng, 0.25, 3.0, 16), 'gq': _grid(rng, -2.0, 2.0, 16) or 0.5, 'q': pool.pop() / pq}
             nt_ = spec['nts'][f'nt{i}{uniq}']
             if per_node_ops:
                 spec['ops'][rk] = {'lib': rlib, 'name': rk, 'reads': LIB[k]['out'], 'defaults': {**LIB['rd']['defaults'], **rvar}}
@@ -384,7 +393,7 @@ def gen_net(rng, n_nodes=None, libs=('lin', 'sat', 'osc', 'leak', 'integ', 'linl
             if len(readouts) > 2 and LIB[k]['out'] == 'x' and rng.random() < readouts[2]:
                 # a second emitter of x between the first operator and the readout
                 ek = f'em{i}{uniq}' if per_node_ops else f'em{uniq}'
-                evar = {'ae': _grid(rng, 0.25, 3.0, 16), 'ce': _grid(rng, -2.0, 2.0, 16) or 0.5, 'x': pool.pop() / 64}
+                evar = {'ae': _grid(rng, 0.25, 3.0, 16), 'ce': _grid(rng, -2.0, 2.0, 16) or 0.5, 'x': pool.pop() / pq}
                 if per_node_ops:
                     spec['ops'][ek] = {'lib': 'em', 'name': ek, 'defaults': {**LIB['em']['defaults'], **evar}}
                 else:
